@@ -437,7 +437,7 @@ def run(ctx):
 
     # ------------------------------------------------------------------ frame-number wrap: 32770 frames (thorough, or when something broke)
     known = {k for k, _ in ctx.known_findings()}
-    if binary and exe and model and (thorough or ctx.broken or any(v[0] not in known for v in ctx.violations)):
+    if binary and exe and model and (thorough or ctx.broken or ctx.degraded or any(v[0] not in known for v in ctx.violations)):
         nframes = 32770
         n = nframes * 320 - 7
         rc, out, err = run_binary(binary, "WRAP", "", 1, "b", bytes(2 * n), timeout=1200)
